@@ -13,7 +13,7 @@ EXTENDS Integers, Sequences, FiniteSets, TLC, Json, CSV, IOUtils
 CONSTANT MaxDepth
 
 Kinds  == {"throw", "div", "builtin", "nargs", "index", "notcallable"}
-Styles == {"stmt", "assign", "retplus", "closure", "recur", "module", "method"}
+Styles == {"stmt", "assign", "retplus", "closure", "recur", "module", "method", "bare", "baremod"}
 Blanks == {0, 1, 3}
 
 L(k, a, b) == [k |-> k, a |-> a, b |-> b]
@@ -60,7 +60,11 @@ Module(kind) ==
    modlines |-> <<L("deffn", "f", ""), L("fail", kind, ""), L("close", "", ""), L("retmap", "f", "")>>,
    trace |-> <<2, 2>>, file |-> <<"main", "mod">>]
 
-Prog(c) == CASE c.st = "recur" -> Recur(c.d, c.kind)
+\* the failing statement (or the call) is the very first token of its file: no header line is rendered
+Bare == [lines |-> <<L("fail", "throw", "")>>, trace |-> <<1>>, file |-> <<"main">>, bare |-> TRUE]
+BareMod == [lines |-> <<L("importstmt", "mod", "")>>, modlines |-> <<L("fail", "throw", "")>>, trace |-> <<1, 1>>, file |-> <<"main", "mod">>, bare |-> TRUE]
+Prog(c) == CASE c.st = "bare" -> Bare [] c.st = "baremod" -> BareMod
+             [] c.st = "recur" -> Recur(c.d, c.kind)
              [] c.st = "closure" -> Closure(c.kind)
              [] c.st = "module" -> Module(c.kind)
              [] OTHER -> Chain(c.d, c.kind, c.st)
@@ -69,6 +73,7 @@ VARIABLES c, ph
 vars == <<c, ph>>
 Init == ph = 0 /\ c \in {x \in [d : 0..MaxDepth, kind : Kinds, st : Styles \ {"method"}, k : Blanks] :
                           /\ (x.st \in {"closure", "module"} => x.d = 1)
+                          /\ (x.st \in {"bare", "baremod"} => (x.d = 0 /\ x.kind = "throw"))
                           /\ (x.st = "recur" => x.d >= 1)}
 Judge == ph = 0 /\ ph' = 1 /\ UNCHANGED c
 Next == Judge
@@ -81,6 +86,7 @@ ShiftLaw == ph = 1 => LET p == Prog(c) IN
    /\ \A i \in 1..Len(p.trace) : Shift(p, c.k)[i] - Shift(p, 0)[i] = (IF p.file[i] = "main" THEN c.k ELSE 0)
 Export == ph = 1 => LET p == Prog(c) IN
    CSVWrite("%1$s", <<ToJson([id |-> c, lines |-> [i \in 1..c.k |-> Blank] \o p.lines,
-                              modlines |-> (IF c.st = "module" THEN p.modlines ELSE <<>>),
+                              modlines |-> (IF c.st \in {"module", "baremod"} THEN p.modlines ELSE <<>>),
+                              bare |-> (c.st \in {"bare", "baremod"}),
                               trace |-> Shift(p, c.k), file |-> p.file])>>, IOEnv.OUT)
 =============================================================================
